@@ -824,6 +824,8 @@ _BS = "phyclone/smc/kernels/bootstrap.py"
 _SA = "phyclone/smc/kernels/semi_adapted.py"
 _FA = "phyclone/smc/kernels/fully_adapted.py"
 SELFTEST = [
+    {"name": "benign-B1-new-node-mass-as-a-conditional-expression", "kind": "benign", "file": _BS, "old": "                if len(self.parent_tree.nodes) == 0:\n                    log_p = np.log(1 - self.outlier_proposal_prob)\n                else:\n                    log_p = np.log((1 - self.outlier_proposal_prob) / 2)\n", "new": "                log_p = np.log(1 - self.outlier_proposal_prob) if len(self.parent_tree.nodes) == 0 else np.log((1 - self.outlier_proposal_prob) / 2)\n"},
+    {"name": "B1-conditional-expression-arms-swapped", "kind": "break", "rule": "B1", "file": _BS, "old": "                if len(self.parent_tree.nodes) == 0:\n                    log_p = np.log(1 - self.outlier_proposal_prob)\n                else:\n                    log_p = np.log((1 - self.outlier_proposal_prob) / 2)\n", "new": "                log_p = np.log((1 - self.outlier_proposal_prob) / 2) if len(self.parent_tree.nodes) == 0 else np.log(1 - self.outlier_proposal_prob)\n"},
     # ---- found by the second round of seeded changes
     {"name": "A2-outliers-only-parent-starts-from-empty-tree", "kind": "break", "rule": "A2", "file": _BS, "old": "        elif len(self.parent_tree.nodes) == 0:\n            if u < (1 - self.outlier_proposal_prob):\n                tree = self._propose_new_node()\n\n            else:\n                tree = self._propose_outlier()", "new": "        elif len(self.parent_tree.nodes) == 0:\n            tree = Tree(self.data_point.grid_size)\n            if u < (1 - self.outlier_proposal_prob):\n                node = tree.create_root_node([])\n                tree.add_data_point_to_node(self.data_point, node)\n            else:\n                tree.add_data_point_to_outliers(self.data_point)"},
     {"name": "S1-outlier-placement-scored-as-new-clone", "kind": "break", "rule": "S1", "file": _SA, "old": "if node in self.parent_particle.tree_nodes or node == tree.outlier_node_name:", "new": "if node in self.parent_particle.tree_nodes:"},
